@@ -25,7 +25,7 @@ Print Assumptions C17_clone_exact.
 (* 3. blocking-async: exactly the documented std::fs / thread::sleep / std::net call paths lexically
       inside an async fn and not inside a spawn_blocking / block_in_place / asyncify call. *)
 Theorem C17_blocking_exact : forall q c file,
-  context_flags_off q ->
+  context_flags_off q -> q_net_bare_type q = false ->
   blocking_report q c file = spec_blocking_report c file.
 Proof. exact blocking_exact. Qed.
 Print Assumptions C17_blocking_exact.
@@ -33,7 +33,7 @@ Print Assumptions C17_blocking_exact.
 (* 4. all three commands together *)
 Theorem C17_report_exact : forall q c file,
   context_flags_off q -> q_chain_start_line q = false -> q_for_header_in_loop q = false ->
-  q_clone_first_pattern q = false ->
+  q_clone_first_pattern q = false -> q_net_bare_type q = false ->
   report q c file = spec_report c file.
 Proof. exact report_exact. Qed.
 Print Assumptions C17_report_exact.
@@ -42,9 +42,10 @@ Print Assumptions C17_report_exact.
       the current tree — already equals the specification on every file that passes the executable
       guard: no reportable call inside a macro invocation, attribute lists the code's sibling walk
       judges like the specification, method calls on the line where their receiver starts, no clone in
-      a `for` iterator expression; for clone-abuse additionally all detect_* options on.
-      (Since the fix commits def5e3f / e1a1fd7 comments among attributes and NetType::method paths are no
-      longer restricted: statements 1-4 hold whatever q_attr_stop_at_comment and q_net_bare_type are.) *)
+      a `for` iterator expression, call paths the code's table classifies as documented; for clone-abuse
+      additionally all detect_* options on.
+      (Since the fix commit def5e3f comments among attributes are no longer restricted: statements 1-4 hold
+      whatever q_attr_stop_at_comment is.  The NetType::method fix e1a1fd7 was undone by a07d81a.) *)
 Theorem C17_unwrap_actual_partial : forall c file,
   file_guard LUnwrap rust_actual file = true -> unwrap_report rust_actual c file = spec_unwrap_report c file.
 Proof. exact (unwrap_guarded rust_actual). Qed.
@@ -64,7 +65,7 @@ Print Assumptions C17_blocking_actual_partial.
 (* 5b. the same confinement with a syntactic description of the defect classes (Proofs/RustSafetyPlain.v::plain_ok):
       no reportable call inside a macro invocation; "test" / "cfg(test)" occurring in an attribute text exactly
       when the attribute marks a test function / implies cfg(test); method calls on the line where their receiver
-      chain starts; no clone in a `for` iterator expression. *)
+      chain starts; no clone in a `for` iterator expression; no NetType::method call path. *)
 Theorem C17_unwrap_actual_plain_partial : forall c file,
   file_plain LUnwrap file = true -> unwrap_report rust_actual c file = spec_unwrap_report c file.
 Proof. exact unwrap_actual_plain. Qed.
@@ -103,7 +104,7 @@ Print Assumptions C17_switch_clone_off.
 (* 7. the documented option names and defaults are the ones the code reads; the documented tables are the code's *)
 Theorem C17_documented_tables :
   blocking_fs_functions = fs_functions /\ blocking_net_types = net_types /\ async_wrapper_functions = wrapper_names /\
-  blocking_classes = spec_blocking_classes /\
+  blocking_classes_of ideal = spec_blocking_classes /\
   test_attr_run_types = ["attribute_item"; "line_comment"; "block_comment"] /\ cfg_attr_run_types = test_attr_run_types /\
   map fst unwrap_cfg = ["enabled"; "allow_in_tests"; "allow_expect"] /\
   map fst clone_cfg = ["enabled"; "allow_in_tests"; "detect_clone_in_loop"; "detect_clone_chain"; "detect_unnecessary_clone"] /\
@@ -133,14 +134,11 @@ Example C17_nonvacuous :
      ("clone-abuse.unnecessary-clone", 7, 16); ("clone-abuse.clone-in-loop", 12, 8); ("blocking-async.fs-in-async", 14, 4)].
 Proof. vm_compute. repeat split; reflexivity. Qed.
 
-(* regression: the witnesses of the two findings repaired in /repo (def5e3f, e1a1fd7) now meet the specification
-   under the faithful model, and the faithful model no longer depends on the two flags on them *)
+(* regression: the witness of the finding repaired in /repo (def5e3f) now meets the specification under the
+   faithful model *)
 Definition w_attr_stop_at_comment : list node := [N (KFn [SAttr "#[test]"; SComment] false "f") [N KStmt [N (KMethod 3 4 3 "unwrap") [N (KId "v0") []]]]].
-Definition w_net_bare_type : list node := [N (KFn [] true "f") [N KStmt [N (KCall 1 4 ["TcpStream"; "connect"]) [N (KId "v0") []]]]].
 Definition defaults : config := {| c_unwrap := []; c_clone := []; c_blocking := [] |}.
-Example C17_fixed_witnesses_pass :
+Example C17_fixed_witness_passes :
   report rust_actual defaults w_attr_stop_at_comment = spec_report defaults w_attr_stop_at_comment /\
-  spec_report defaults w_attr_stop_at_comment = [] /\
-  report rust_actual defaults w_net_bare_type = spec_report defaults w_net_bare_type /\
-  spec_report defaults w_net_bare_type = [("blocking-async.net-in-async", 2, 4)].
+  spec_report defaults w_attr_stop_at_comment = [].
 Proof. vm_compute. repeat split; reflexivity. Qed.
